@@ -6,7 +6,6 @@ import (
 	"context"
 	"fmt"
 	"net"
-	"os"
 	"net/netip"
 	"runtime"
 	"sort"
@@ -227,6 +226,8 @@ type orec struct {
 	admitV    int64
 	life      int64 // permitted lifetime, whole seconds
 	lim       string
+	nsLife    int64 // permitted lifetime of its authority records alone (>= life)
+	nsLim     string
 	lastShown int64
 	mark      int
 }
@@ -602,45 +603,44 @@ func (h *histT) judgeReply(qtok string, recs []recTok, freshCalls map[string]int
 			note(fail("c/hit/served-without-an-admission", "piece=%s mark=%d", r.tok, r.mark))
 			continue
 		}
+		// Every served record is judged by the admission it originates from.
 		// An alias entry keeps a copy of the authority records its chase
-		// merged in; such a copy lives and dies with the alias entry (whose
-		// own lifetime is bounded by every cached piece it consumed).  So an
-		// authority record may be justified by its origin or by a cached
-		// alias piece that precedes it in the chain.  VERIF_C04_STRICT=1
-		// judges it by its origin alone (see notes/C04.md, candidate finding).
-		cands := []*orec{o}
+		// merged in (the target's SOA / NSEC / RRSIGs); such a copy may not
+		// be served past the lifetime of the denial it was copied from
+		// either — it gets its own signature because the record then comes
+		// out of an entry other than its origin's.
+		copyOf := false
 		if r.ns {
 			for _, p := range order {
 				if p == r.tok {
 					break
 				}
-				if freshCalls[p] == 0 && p[0] == 'n' {
-					if c := h.led[slotKey{p, false}]; c != nil {
-						cands = append(cands, c)
-					}
+				if freshCalls[p] == 0 && p[0] == 'n' && h.led[slotKey{p, false}] != nil {
+					copyOf = true
 				}
 			}
 		}
-		best := cands[0]
-		for _, c := range cands[1:] {
-			if c.admitV+c.life > best.admitV+best.life {
-				best = c
+		end := o.admitV + o.life
+		if copyOf {
+			// the copy consists of the origin's authority records only: it is
+			// bound by their TTLs, signatures, SOA minimum and lease, not by
+			// the origin's answer records
+			if ce := o.admitV + o.nsLife; h.V >= ce || r.ttl > ce-h.V-1 {
+				note(fail("c/hit/authority-copy-outlives-origin/"+o.nsLim, "piece=%s shown=%d at=%ds origin admitted=%ds authority lifetime=%ds", r.tok, r.ttl, h.V, o.admitV, o.nsLife))
 			}
-		}
-		if strictCopies && best != o {
-			// judged by the origin alone: a copy that only its holder justifies
-			if oe := o.admitV + o.life; h.V >= oe || r.ttl > oe-h.V-1 {
-				note(fail("c/hit/authority-copy-outlives-origin/"+o.lim, "piece=%s shown=%d at=%ds origin admitted=%ds lifetime=%ds", r.tok, r.ttl, h.V, o.admitV, o.life))
-				continue
+			key := fmt.Sprintf("%s|%s#%d.%d/%v", holder, r.tok, r.mark, o.gen, r.ns)
+			if last, ok := h.shown[key]; ok && r.ttl > last {
+				note(fail("c/hit/shown-ttl-grew", "piece=%s shown=%d earlier=%d", r.tok, r.ttl, last))
 			}
+			seen = append(seen, seenT{key, r.ttl})
+			continue
 		}
-		end := best.admitV + best.life
 		if h.V >= end {
-			note(fail("c/hit/served-past-lifetime/"+best.lim, "piece=%s at=%ds admitted=%ds lifetime=%ds", r.tok, h.V, best.admitV, best.life))
+			note(fail("c/hit/served-past-lifetime/"+o.lim, "piece=%s at=%ds admitted=%ds lifetime=%ds", r.tok, h.V, o.admitV, o.life))
 			continue
 		}
 		if r.ttl > end-h.V-1 {
-			note(fail("c/hit/shown-ttl-exceeds-remaining/"+best.lim, "piece=%s shown=%d remaining<%ds", r.tok, r.ttl, end-h.V))
+			note(fail("c/hit/shown-ttl-exceeds-remaining/"+o.lim, "piece=%s shown=%d remaining<%ds", r.tok, r.ttl, end-h.V))
 		}
 		key := fmt.Sprintf("%s|%s#%d.%d/%v", holder, r.tok, r.mark, o.gen, r.ns)
 		if last, ok := h.shown[key]; ok && r.ttl > last {
@@ -655,8 +655,6 @@ func (h *histT) judgeReply(qtok string, recs []recTok, freshCalls map[string]int
 	}
 	return verdict
 }
-
-var strictCopies = os.Getenv("VERIF_C04_STRICT") != ""
 
 // chainOrder: the pieces of a composed reply in chain order (answer order,
 // then authority-only pieces).
@@ -715,40 +713,23 @@ func (h *histT) register(chs []change, script map[string]*specT, recs []recTok, 
 		// composed: anything re-cached from cached pieces inherits the
 		// shortest lifetime among them
 		if !refresh {
-			hasAns := map[string]bool{}
-			for _, r := range recs {
-				if !r.ns {
-					hasAns[r.tok] = true
-				}
-			}
-			var aliasBest int64 = -1 << 40 // longest remaining among cached chain pieces seen so far
 			for _, t := range chainAfter(recs, c.k.tok) {
 				if freshCalls[t] > 0 || t[0] != 'n' {
 					continue
 				}
 				// sub-queries see the shared slot only
-				p := h.led[slotKey{t, false}]
-				rem := int64(-1 << 40)
-				if p != nil {
-					rem = p.admitV + p.life - h.V
-				}
-				if hasAns[t] {
-					if rem > aliasBest {
-						aliasBest = rem
+				if p := h.led[slotKey{t, false}]; p != nil {
+					if rem := p.admitV + p.life - h.V; rem < life {
+						life, lim = rem, "piece-"+t
 					}
-				} else if !strictCopies && aliasBest > rem {
-					// authority-only piece: may be a copy held by a cached alias
-					rem = aliasBest
-				}
-				if p == nil && rem < 0 {
-					continue
-				}
-				if rem < life {
-					life, lim = rem, "piece-"+t
 				}
 			}
 		}
 		o := &orec{gen: h.gens[c.k], admitV: h.V, life: life, lim: lim, lastShown: -1, mark: sp.mark}
+		o.nsLife, o.nsLim = oracleLifetime(sp.ns, sp.ns, sp.negative(), false, 0, sp.lease)
+		if o.nsLife < life {
+			o.nsLife, o.nsLim = life, lim
+		}
 		h.led[c.k] = o
 		h.origins[fmt.Sprintf("%s#%d", c.k.tok, sp.mark)] = o
 		// admission bound: the stored lifetime may not exceed the permitted one
